@@ -1,0 +1,66 @@
+//go:build verif
+
+package pubsub
+
+import (
+	"context"
+
+	pb "github.com/libp2p/go-libp2p-pubsub/pb"
+	"github.com/libp2p/go-libp2p/core/peer"
+)
+
+// VerifSendRPCQ is VerifSendRPC (verif_export_split.go) with a bounded
+// outbound queue: the queue-only peer `to` accepts queueCap RPCs (0: the queue
+// is full from the start), so that the "queue full" arm of doSendRPC /
+// doDropRPC can be driven as well. A negative queueCap means "practically
+// unbounded", exactly as VerifSendRPC. Everything else is as documented there:
+// call it inside the event loop (VerifEval); peer, queue, maximum message size
+// and whatever sendRPC retained for `to` are restored / forgotten before it
+// returns; the result is what sendRPC queued for the wire, in queue order, and
+// the control message it kept for a retry (nil if none).
+func (p *PubSub) VerifSendRPCQ(to peer.ID, out *RPC, urgent bool, maxSize, queueCap int,
+	pendingCtl *pb.ControlMessage, pendingGossip []*pb.ControlIHave) (queued []*RPC, retry *pb.ControlMessage) {
+	gs, ok := p.rt.(*GossipSubRouter)
+	if !ok {
+		return nil, nil
+	}
+	if queueCap < 0 {
+		queueCap = 1 << 20
+	}
+	q := newRpcQueue(queueCap)
+	oldQ, hadQ := p.peers[to]
+	oldMax := p.maxMessageSize
+	p.peers[to], p.maxMessageSize = q, maxSize
+	defer func() {
+		p.maxMessageSize = oldMax
+		if hadQ {
+			p.peers[to] = oldQ
+		} else {
+			delete(p.peers, to)
+		}
+		delete(gs.control, to)
+		delete(gs.gossip, to)
+	}()
+
+	if pendingCtl != nil {
+		gs.control[to] = pendingCtl
+	}
+	if pendingGossip != nil {
+		gs.gossip[to] = pendingGossip
+	}
+
+	gs.sendRPC(to, out, urgent)
+
+	for {
+		n, pr, _ := q.VerifLen()
+		if n+pr == 0 {
+			break
+		}
+		r, err := q.Pop(context.Background())
+		if err != nil {
+			break
+		}
+		queued = append(queued, r)
+	}
+	return queued, gs.control[to]
+}
